@@ -11,7 +11,11 @@ from props import userclasses
 from props.libspec import jv, unjv
 
 ENGINE = "latexwrap"
-RULE = ("streams: wrapper = random small libraries (str / int / list / list-of-NameParts / NameParts / None values, @string "
+RULE = ("streams: rules = the ENCODER RULES configured in latex_encoding.py (keep_math / enclose_urls / defaults) compared with "
+        "Model/LatexRules.v (op 121) on all token sequences of length <= 2 (thorough: 3) over 28 tokens ($, escaped $, backslash, newline, "
+        "blanks, URL schemes, www, dots, TeX specials, accented letter) under two / all five option sets plus random sequences of 3-9 "
+        "tokens, through LatexEncodingMiddleware on a one-field library, the per-character default conversion observed on a pristine "
+        "pylatexenc encoder; each case also carries the round-trip verdict under the known classes; wrapper = random small libraries (str / int / list / list-of-NameParts / NameParts / None values, @string "
         "blocks, comments, duplicate keys) through the REAL Latex{En,De}codingMiddleware classes constructed with custom "
         "stub converter objects (table: e-acute <-> \\'e; raises 'boom <text>' on texts containing BOOM, raises an exception "
         "with an empty message on QUIET), sequences enc / dec / enc,dec / dec,enc, compared with the Coq wrapper model run on "
@@ -49,7 +53,7 @@ RULE = ("streams: wrapper = random small libraries (str / int / list / list-of-N
         "every other letter of the sweep: set wide, kept only where pristine pylatexenc round-trips the text) the texts in which c is the "
         "ONLY character whose encoding is markup: c alone, x c y glued, c between blanks, c as a word between words, c doubled, tripled, "
         "repeated with a blank, and two DIFFERENT such characters and nothing else (glued both ways, separated by a blank), through encode "
-        "(default options; x c y also under the four other option combinations) then decode, in a field, as a NameParts word and in an "
+        "(default options; x c y also under the four other option combinations, in the quick tier one of them per character) then decode, in a field, as a NameParts word and in an "
         "@string: quick = every layout for main and one layout (rotating with the character and the seed) for wide, thorough = every layout and option for both. distinct = "
         "distinct (stream, input); non-trivial = some visited text is changed by the converter or fails")
 TRUSTED = ["pylatexenc (encoder tables, LaTeX parser) is NOT modelled: the round-trip clause of C18 is validated by testing only "
@@ -461,7 +465,12 @@ SPARSE_PAIR_LAYOUTS = [("pair-glued", "CD"), ("pair-glued-reversed", "DC"), ("pa
 SPARSE_PARTNERS = SPECIALS + ["\xa0", "<", ">", "|"]
 
 
+SPARSE_MAIN_SET = set(SPARSE_MAIN)
+
+
 def sparse_case(layout, fmt, chars, opts, which):
+    if not all(c in SPARSE_MAIN_SET for c in chars):
+        which = "wide"          # a character beyond the named alphabet: demanded only where pristine pylatexenc round-trips the text
     text = "".join(chars[0] if x == "C" else chars[1] if x == "D" else x for x in fmt)
     inp = {"kind": "roundtrip", "text": text, "opts": opts, "words": " " in fmt,
            "sparse": {"layout": layout, "chars": list(chars), "set": which}}
@@ -473,9 +482,15 @@ def sparse_case(layout, fmt, chars, opts, which):
 def gen_sparse_cases(rng, quick):
     cases = []
     default = ENC_OPTS[0]
-    for c in SPARSE_MAIN:
+    for n, c in enumerate(SPARSE_MAIN):
         for name, fmt in SPARSE_LAYOUTS:
-            for o in ENC_OPTS if (not quick or name == "glued-in-word") else [default]:
+            if not quick:
+                opts = ENC_OPTS
+            elif name == "glued-in-word":
+                opts = [default, ENC_OPTS[1 + n % 4]]
+            else:
+                opts = [default]
+            for o in opts:
                 cases.append(sparse_case(name, fmt, [c], o, "main"))
         partners = [rng.choice(SPARSE_PARTNERS), rng.choice(ACCENTED), rng.choice(SPARSE_MAIN)]
         if not quick:
@@ -557,6 +572,9 @@ def generate(rng, tier):
     cases.extend(gen_userclass_cases(rng, quick))
     # sparse markup (appended: the streams above keep their inputs)
     cases.extend(gen_sparse_cases(rng, quick))
+    # the encoder rules of latex_encoding.py against Model/LatexRules.v (op 121), appended last (props/c18_rules.py)
+    from props import c18_rules
+    cases.extend(c18_rules.generate(rng, quick))
     return cases
 
 
@@ -749,6 +767,9 @@ def reasons_of(b):
 
 # ---------------------------------------------------------------- implementation side
 def impl(case):
+    if case["input"]["kind"] == "rules":
+        from props import c18_rules
+        return c18_rules.impl(case)
     return {"wrapper": impl_wrapper, "options": impl_options, "roundtrip": impl_roundtrip,
             "emptymsg": impl_emptymsg, "userdefault": impl_userdefault}[case["input"]["kind"]](case)
 
